@@ -7,6 +7,7 @@ import (
 	"os"
 	"runtime"
 	"strings"
+	"sync/atomic"
 	"testing"
 	"testing/synctest"
 	"time"
@@ -61,9 +62,25 @@ func Bubble(t *testing.T, f func()) (res BubbleResult) {
 			f()
 		})
 	}()
-	select {
-	case <-done:
-	case <-time.After(StuckAfter):
+	// A run is stuck when it showed no sign of life (Tick: a log line, a seam
+	// call, a scheduling decision) for StuckAfter of real time - not when it is
+	// merely slow because the machine is busy - or when it is still not done
+	// after ten times that.
+	start, last, seen := time.Now(), time.Now(), progress.Load()
+	tick := time.NewTicker(500 * time.Millisecond)
+	defer tick.Stop()
+	for {
+		select {
+		case <-done:
+			return res
+		case <-tick.C:
+		}
+		if p := progress.Load(); p != seen {
+			seen, last = p, time.Now()
+		}
+		if time.Since(last) < StuckAfter && time.Since(start) < 10*StuckAfter {
+			continue
+		}
 		// The goroutines of the bubble stay behind; the caller must not start
 		// another run in this process.
 		st := AllStacks()
@@ -72,11 +89,16 @@ func Bubble(t *testing.T, f func()) (res BubbleResult) {
 		}
 		return BubbleResult{Stuck: true, Stacks: st}
 	}
-	return res
 }
 
-// StuckAfter is the real time after which a run counts as stuck.
+// StuckAfter is the real time without any sign of life after which a run
+// counts as stuck.
 var StuckAfter = 40 * time.Second
+
+var progress atomic.Uint64
+
+// Tick is called by the harness wherever a run shows that it is alive.
+func Tick() { progress.Add(1) }
 
 // Wait blocks until every other goroutine of the bubble is durably blocked.
 func Wait() { synctest.Wait() }
